@@ -460,7 +460,10 @@ LabeledUndirectedGraph<EdgeLabel>::getDirectedGraph() const {
 
     for (auto edge : edges())
         if (edge.first < edge.second)
-            directedGraph.addReciprocalEdge(edge.first, edge.second, true);
+            directedGraph.addReciprocalEdge(
+                edge.first, edge.second, getEdgeLabel(edge.first, edge.second),
+                true
+            );
         else if (edge.first == edge.second)
             directedGraph.addEdge(
                 edge.first, edge.second, getEdgeLabel(edge.first, edge.second),
